@@ -43,7 +43,7 @@ MacPool == {<<0, 0, 0, 0, 0, 0>>, <<0, 17, 34, 51, 68, 85>>, <<255, 255, 255, 25
 \* integral IEEE single values with their octets: 0, 1, 1000, 2^24, 2^31
 F32Pool == {<<0, 0, 0, 0>>, <<63, 128, 0, 0>>, <<68, 122, 0, 0>>, <<75, 128, 0, 0>>, <<79, 0, 0, 0>>}
 Named(n, o) == [name |-> n, o |-> o]
-ExtPool ==
+ExtPool(lazy) ==
    {Named("route-target", RouteTarget0(a, n)) : a \in U16Pool, n \in U32P}
    \cup {Named("route-target", RouteTarget1(i, n)) : i \in IpPool, n \in U16Pool}
    \cup {Named("route-target", RouteTarget2(a, n)) : a \in As4P, n \in U16Pool}
@@ -62,8 +62,16 @@ ExtPool ==
    \cup {Named("mac-mobility", MacMobility(f, s)) : f \in {0, 1}, s \in U32P}
    \cup {Named("es-import", EsImport(m)) : m \in MacPool}
    \cup {Named("router-mac", RouterMac(m)) : m \in MacPool}
+\* raw pool: every (type, subtype) the decoder renders x arbitrary value octets (reserved fields not zero, flag bits the
+\* builders above never set).  Whatever text the decoder renders for them must be accepted back and render the same text
+\* again; which octets an RFC encoder would produce is not defined for all of them, so the octet clause does not apply.
+RawKinds == {<<0, 2>>, <<1, 2>>, <<2, 2>>, <<0, 3>>, <<1, 3>>, <<2, 3>>, <<3, 11>>, <<3, 12>>, <<128, 8>>, <<8, 0>>, <<128, 6>>, <<128, 7>>, <<128, 9>>,
+             <<64, 4>>, <<6, 1>>, <<6, 0>>, <<6, 2>>, <<6, 3>>}
+RawVals == {<<0, 0, 0, 0, 0, 0>>, <<255, 255, 255, 255, 255, 255>>, <<0, 0, 0, 1, 0, 0>>, <<0, 1, 0, 0, 0, 0>>, <<128, 0, 0, 0, 0, 0>>, <<0, 0, 128, 0, 0, 0>>,
+            <<1, 2, 3, 4, 5, 6>>, <<0, 0, 255, 255, 0, 0>>, <<0, 0, 0, 0, 1, 0>>, <<0, 0, 0, 0, 0, 255>>}
+RawPool(lazy) == {Named("raw", k \o v) : k \in RawKinds, v \in RawVals}
 \* standard communities: every well-known value the decoder names, their neighbours, and boundary values
-StdPool == {Named("community", U32hl(<<65535, x>>)) : x \in {0, 1, 2, 3, 4, 5, 6, 665, 666, 667, 65280, 65281, 65282, 65283, 65284, 65285, 65535}}
+StdPool(lazy) == {Named("community", U32hl(<<65535, x>>)) : x \in {0, 1, 2, 3, 4, 5, 6, 665, 666, 667, 65280, 65281, 65282, 65283, 65284, 65285, 65535}}
            \cup {Named("community", U32hl(<<a, b>>)) : a \in {0, 1, 65000, 65534}, b \in {0, 1, 65535}}
-LargePool == {Named("large-community", U32hl(a) \o U32hl(b) \o U32hl(c)) : a, b, c \in {<<0, 0>>, <<0, 1>>, <<32768, 0>>, <<65535, 65535>>}}
+LargePool(lazy) == {Named("large-community", U32hl(a) \o U32hl(b) \o U32hl(c)) : a, b, c \in {<<0, 0>>, <<0, 1>>, <<32768, 0>>, <<65535, 65535>>}}
 =============================================================================
